@@ -122,7 +122,7 @@ InstB(d) == \E via \in Vias : \E re \in BOOLEAN : InstVia(d, via, re)
 Ret(i, o, r, p, c, gg, t) == hist' = Append(hist, [i |-> i, op |-> o.op, x |-> o.x, y |-> o.y, res |-> r, st |-> Snapshot(p, c, gg, t)])
 
 Do(i, o) ==
-  /\ insts[i].alive
+  /\ insts[i].alive /\ insts[i].sure          \* an instance that exists only by latitude is not operated (the real one may not exist)
   /\ CASE o.op = "gset"  -> g' = o.x /\ UNCHANGED <<pages, cells, tab>> /\ Ret(i, o, "void", pages, cells, o.x, tab)
        [] o.op = "gget"  -> UNCHANGED <<pages, cells, g, tab>> /\ Ret(i, o, g, pages, cells, g, tab)
        [] o.op = "kget"  -> insts[i].kind = "B" /\ UNCHANGED <<pages, cells, g, tab>> /\ Ret(i, o, insts[i].k, pages, cells, g, tab)
